@@ -136,9 +136,18 @@ def make_gw(spec):
     if spec is None:
         return None
     s = dict(spec)
+    dtype = s.pop("_date_type", "str")
     if "dates" in s:
         s["dates"] = [pd.to_datetime(d) if not isinstance(d, pd.Timestamp) else d for d in s["dates"]]
-        s["dates"] = [f"{d.year}/{d.month:02d}/{d.day:02d}" for d in s["dates"]]
+        if dtype == "date":          # datetime.date objects
+            s["dates"] = [d.date() for d in s["dates"]]
+        elif dtype == "np64":        # day-resolution numpy datetimes
+            import numpy as _np
+            s["dates"] = [_np.datetime64(d.strftime("%Y-%m-%d")) for d in s["dates"]]
+        elif dtype == "timestamp":
+            pass
+        else:
+            s["dates"] = [f"{d.year}/{d.month:02d}/{d.day:02d}" for d in s["dates"]]
     return ac.GroundWater(**s)
 
 
